@@ -1151,6 +1151,185 @@ def tx_queue_cases(chk, rng, tier, prefix):
     return out
 
 
+# ---------------------------------------------------------------- the typed D-Bus view (shared with C18)
+def _canon(v):
+    ''' type-faithful canonical form of a Python value handed to a signal / returned (own transcription) '''
+    if isinstance(v, bool):
+        return {'bool': bool(v)}
+    if isinstance(v, (bytes, bytearray)):
+        return {'b': bytes(v).hex()}
+    if isinstance(v, str):
+        return {'s': str(v)}
+    if isinstance(v, int):
+        return {'n': int(v)}
+    if isinstance(v, (list, tuple)):
+        if all(isinstance(x, str) for x in v):
+            return {'ss': [str(x) for x in v]}
+        return {'list': [_canon(x) for x in v]}
+    if isinstance(v, dict):
+        return {'dict': {str(k): _canon(x) for k, x in sorted(v.items())}}
+    return {'other': True}
+
+
+_DECL = {'send_bundle_started': 'st', 'send_bundle_finished': 'sts', 'recv_bundle_finished': 'sta{sv}',
+         'recv_bundle_get_queue': 'as', 'recv_bundle_pop_data': 'ay', 'send_bundle_data': 's'}
+
+
+def _conf(val, ty):
+    if ty == 's':
+        return 's' in val
+    if ty == 't':
+        return 'bool' in val or ('n' in val and 0 <= val['n'] < 2 ** 64)
+    if ty == 'as':
+        return 'ss' in val
+    if ty == 'ay':
+        return 'b' in val
+    if ty == 'a{sv}':
+        return 'dict' in val and all(any(k in x for k in ('s', 'n', 'bool', 'b', 'ss')) for x in val['dict'].values())
+    return False
+
+
+def _split(sig):
+    out, i = [], 0
+    while i < len(sig):
+        if sig.startswith('a{sv}', i):
+            out.append('a{sv}')
+            i += 5
+        elif sig[i] == 'a':
+            out.append(sig[i:i + 2])
+            i += 2
+        else:
+            out.append(sig[i])
+            i += 1
+    return out
+
+
+def dbus_view_histories(rng, tier):
+    hs = []
+    for _ in range(80 if tier == 'thorough' else 10):
+        mtu = rng.choice([None, 10, 30, 576])
+        evs, nb = [], 0
+        for _e in range(rng.randrange(4, 14)):
+            k = rng.choice(['dgram', 'dgram', 'pop', 'queue', 'send', 'drain'])
+            if k == 'dgram':
+                peer = rng.choice(PEERS)
+                raw = b''
+                for _m in range(rng.choice([1, 1, 2])):
+                    data = _rxq_bundle(nb, 3 + nb % 9)
+                    nb += 1
+                    if rng.random() < 0.4:
+                        parts = split_parts(rng, data, 2)
+                        raw += b''.join(enc_transfer(nb, len(data), off, ch) for (off, ch) in parts)
+                    else:
+                        raw += data
+                evs.append({'addr': peer[0], 'port': peer[1], 'hex': raw.hex()})
+            elif k == 'pop':
+                evs.append({'pop': rng.randrange(0, max(1, nb + 1))})
+            elif k == 'queue':
+                evs.append({'queue': True})
+            elif k == 'send':
+                evs.append({'send': bytes(rng.randrange(1, 255) for _x in range(rng.choice([0, 3, 9, 12, 40, 200]))).hex()})
+            else:
+                evs.append({'drain': True})
+        evs += [{'queue': True}, {'drain': True}]
+        hs.append({'kind': 'dbus', 'mtu': mtu, 'evs': evs})
+    return hs
+
+
+def run_dbus_history(rig, hist):
+    ''' → per event the canonical typed signals / return value seen on the real Agent '''
+    from gi.repository import GLib
+    loop = GLib.LOOP
+    loop.reset()
+    ag = rig.agent(hist['mtu'])
+
+    class FakeSock(object):
+        def sendmsg(self, *a, **k):
+            pass
+
+        def setsockopt(self, *a, **k):
+            pass
+
+        def fileno(self):
+            return -1
+
+        def close(self):
+            pass
+
+    clock = _VClock(rig.ua.time)
+    orig_sock, orig_time = rig.ua.Conversation.make_local_socket, rig.ua.time
+    rig.ua.Conversation.make_local_socket = lambda _self: FakeSock()
+    rig.ua.time = clock
+    outs = []
+    try:
+        for ev in hist['evs']:
+            n0 = len(ag._verif_signals)
+            res = []
+            try:
+                if 'pop' in ev:
+                    res.append({'ret': 'recv_bundle_pop_data', 'val': _canon(ag.recv_bundle_pop_data(str(ev['pop'])))})
+                elif 'queue' in ev:
+                    res.append({'ret': 'recv_bundle_get_queue', 'val': _canon(list(ag.recv_bundle_get_queue()))})
+                elif 'send' in ev:
+                    res.append({'ret': 'send_bundle_data', 'val': _canon(ag.send_bundle_data(list(bytes.fromhex(ev['send'])), {'address': '10.0.0.9'}))})
+                elif 'drain' in ev:
+                    steps = 0
+                    while steps < 4000 and (loop.pending('idle') or loop.pending('timeout')):
+                        for src in loop.pending('idle'):
+                            loop.fire(src)
+                            steps += 1
+                        clock.ns += 50 * 10 ** 6
+                        for src in loop.pending('timeout'):
+                            loop.fire(src)
+                            steps += 1
+                else:
+                    conv = rig.ua.Conversation(family=socket.AF_INET, peer_address=ipaddress.ip_address(ev['addr']), peer_port=ev['port'])
+                    ag._recv_datagram(None, bytes.fromhex(ev['hex']), conv)
+            except KeyError:
+                res.append({'raised': 'recv_bundle_pop_data' if 'pop' in ev else '?', 'what': 'KeyError'})
+            except Exception as err:   # noqa
+                res.append({'raised': '?', 'what': type(err).__name__})
+            sigs = [{'sig': name, 'args': [_canon(a) for a in args]} for (_p, name, _s, args) in ag._verif_signals[n0:]]
+            outs.append(sigs + res)
+        return outs, [type(e).__name__ for (_s, e) in loop.escaped]
+    finally:
+        rig.ua.Conversation.make_local_socket = orig_sock
+        rig.ua.time = orig_time
+        loop.reset()
+
+
+def dbus_view_cases(chk, rng, tier, prefix):
+    ''' random histories of datagrams, pops, queue reads, sends and drains on a real Agent: every signal and return
+    value, as a typed value, must be what the Lean D-Bus view (`udpcl.dbus`, Props/C18Udpcl.lean) says, and must
+    conform to the signature declared for it. Returns [(signature, what, replay)]. '''
+    rig = Rig()
+    out = []
+    hists = dbus_view_histories(rng, tier)
+    answers = chk.driver([{'op': 'udpcl.dbus', **({} if h['mtu'] is None else {'mtu': h['mtu']}), 'evs': h['evs']} for h in hists])
+    for hist, ans in zip(hists, answers):
+        outs, esc = run_dbus_history(rig, hist)
+        chk.case({'dbus': [sorted(e.keys())[0] for e in hist['evs']], 'mtu': hist['mtu']}, nontrivial=True, sample=len(hist['evs']) < 9)
+        chk.cov['traces_validated_against_impl'] += 1
+        chk.count('dbus:histories')
+        if esc:
+            out.append(('%s:tx-callback-escape-%s' % (prefix, esc[0]), 'a callback raised %s' % esc[0], hist))
+        for ev, got, want in zip(hist['evs'], outs, ans.get('outs', [])):
+            for o in got:
+                chk.count('dbus:' + (o.get('sig') or o.get('ret') or 'raised'))
+                name = o.get('sig') or o.get('ret')
+                if name in _DECL:
+                    vals = o['args'] if 'sig' in o else [o['val']]
+                    tys = _split(_DECL[name])
+                    if len(vals) != len(tys) or not all(_conf(v, t) for v, t in zip(vals, tys)):
+                        out.append(('%s:udpcl-type-%s' % (prefix, name), '%s%r does not conform to "%s"' % (name, vals, _DECL[name]), hist))
+            key = (lambda x: json.dumps(x, sort_keys=True))
+            same = sorted(map(key, got)) == sorted(map(key, want)) if 'drain' in ev else got == want
+            if not same:
+                chk.corr_break('D-Bus view differs at %s: impl %s | model %s' % (json.dumps(ev)[:80], json.dumps(got)[:300], json.dumps(want)[:300]), hist)
+                break
+    return out
+
+
 # ---------------------------------------------------------------- range codec
 def run_ranges(chk, rig):
     import portion
@@ -1209,6 +1388,8 @@ def run(chk):
     for (sig, what, rep) in rx_queue_cases(chk, chk.rng, chk.tier, 'C13'):
         chk.violation(sig, what, rep)
     for (sig, what, rep) in tx_queue_cases(chk, chk.rng, chk.tier, 'C13'):
+        chk.violation(sig, what, rep)
+    for (sig, what, rep) in dbus_view_cases(chk, chk.rng, chk.tier, 'C13'):
         chk.violation(sig, what, rep)
 
 
